@@ -149,8 +149,8 @@ def _offs(ev):
 
 
 def _declared(ev):
-    if _ok_batch(ev) and ev["declared"]:
-        ev["declared"][0]["nullable"] = not ev["declared"][0]["nullable"]
+    if _ok_batch(ev) and ev["batches"][0]["decl"]:
+        ev["batches"][0]["decl"][0]["nullable"] = not ev["batches"][0]["decl"][0]["nullable"]
         return True
     return False
 
